@@ -11,8 +11,10 @@
      ones (for Fold, whose order comes from a Go map, per-call counts and
      statuses plus the sorted concatenation).
    violations: judged on the OBSERVED data only, against the operator's
-     meaning [sem]: a call returned more than demanded; on a non-failing call
-     the sentinel tail was overwritten; an earlier delivered frame changed;
+     meaning [sem]: a call returned more than the destination's length; a row
+     of the backing frame before the window was written; on a non-failing call
+     a row after the delivered ones (rest of the window, rows behind it) was
+     overwritten; an earlier delivered frame changed;
      the concatenation is not a prefix of [sem] (not equal to it at EOF); EOF
      although an input that had to be read failed; an error although nothing
      could fail; no end within the bound (livelock); a panic or a hang. *)
@@ -26,15 +28,21 @@ Inductive kind :=
 | KConst (nshard shard : Z) | KMultiSliceio | KFrame | KFold (f : foldfn)
 | KReaderFunc | KWriterFunc (w : wfn) | KScan | KTaskBuf (partition : nat) | KMultiExec
 | KCogroup | KDecoding | KClosing | KScanner | KScanBad (after : nat) (arity : bool)
-| KMerge | KReduce | KBufOut (inner : kind).
+| KMerge | KReduce | KBufOut (inner : kind) | KHeadDecoding (n : Z).
 
-(* c_rows: rows [0,n) of the destination right after the call; c_tail: the rest
-   of the destination, run-length encoded (row, repetitions); c_changed: rows
+(* The destination of a call is a WINDOW backing.Slice(pre, pre+d) of a
+   sentinel-filled backing frame (Len = d; Cap = d + the rows behind it); the
+   whole backing frame is recorded after the call:
+   c_pre: the rows of the backing frame before the window, run-length encoded;
+   c_rows: rows [0,n) of the window; c_tail: everything after them, i.e. the
+   rest of the window and the rows of the backing frame behind the window,
+   run-length encoded (row, repetitions); c_changed: rows
    [0,n) were re-read after the last call of the run, and this lists every
    (index, row now there) that differs from c_rows (a lossless encoding of the
    re-read: empty = the delivered rows are still what they were) *)
-Record call := mkCall { c_d : nat; c_n : nat; c_st : status; c_rows : list row;
-                        c_tail : list (row * nat); c_changed : list (nat * row) }.
+Record call := mkCall { c_d : nat; c_n : nat; c_st : status; c_pre : list (row * nat);
+                        c_rows : list row; c_tail : list (row * nat);
+                        c_changed : list (nat * row) }.
 Record case := mkCase { c_kind : kind; c_ins : list script; c_calls : list call; c_side : list row }.
 
 Definition row_eqb := list_eqb Z.eqb.
@@ -64,6 +72,7 @@ Fixpoint reader_of (k : kind) (ins : list script) : reader :=
   | KDecoding => mk_reader (mkDec (in0 ins) [] SOk) dec_read
   | KClosing => mk_reader (mkCl (in0 ins) 0) closing_read
   | KScanner | KScanBad _ _ => mk_reader (sc_init (in0 ins)) scanv_read
+  | KHeadDecoding n => mk_reader (mkDec (in0 ins) [] SOk, n) (head_over dec_read)
   | KMerge => mk_reader (mg_init ins) mg_read
   | KReduce => mk_reader (mkRd ins None SOk) rd_read
   | KBufOut inner =>
@@ -147,6 +156,7 @@ Fixpoint sem (k : kind) (ins : list script) : list row :=
   | KTaskBuf p => sem_tb (map frames_of ins) p
   | KCogroup => sem_cogroup ins
   | KDecoding => batches_of (in0 ins)
+  | KHeadDecoding n => sem_head n (batches_of (in0 ins))
   | KMerge => sort_rows (concat (map rows_of ins))
   | KReduce => sem_fold AccSum (sort_rows (concat (map rows_of ins)))
   | KBufOut inner => sem inner ins
@@ -191,6 +201,7 @@ Fixpoint must_fail (k : kind) (ins : list script) : bool :=
   | KHead n => fails (in0 ins) && (Z.of_nat (length (rows_of (in0 ins))) <? n)
   | KConst _ _ | KFrame | KTaskBuf _ => false
   | KDecoding => dec_fails (in0 ins)
+  | KHeadDecoding n => dec_fails (in0 ins) && (Z.of_nat (length (batches_of (in0 ins))) <? n)
   | KMultiSliceio | KMultiExec | KCogroup | KMerge | KReduce => existsb fails ins
   | KBufOut inner => must_fail inner ins
   | _ => fails (in0 ins)
@@ -199,7 +210,7 @@ Fixpoint must_fail (k : kind) (ins : list script) : bool :=
 (* can anything fail at all?  (an error is only warranted then) *)
 Fixpoint may_fail (k : kind) (ins : list script) : bool :=
   match k with
-  | KDecoding => dec_fails (in0 ins)
+  | KDecoding | KHeadDecoding _ => dec_fails (in0 ins)
   | KWriterFunc (WFailOn _ _) => true
   | KBufOut inner => may_fail inner ins
   | KConst _ _ | KFrame | KTaskBuf _ => false
@@ -216,6 +227,7 @@ Definition bad_status (s : status) : bool :=
 
 Definition call_ok (c : call) : bool :=
   (c_n c <=? c_d c)%nat
+  && forallb (fun p => is_sentinel_row (fst p)) (c_pre c)
   && negb (bad_status (c_st c))
   && match c_st c with
      | SErr _ | SFuel => true
